@@ -3,6 +3,7 @@ package main
 import (
 	"fmt"
 	"go/token"
+	"go/types"
 	"strings"
 
 	"golang.org/x/tools/go/ssa"
@@ -264,14 +265,16 @@ func checkExcerptIndexPairing(c *Ctx) {
 	}
 	nMut := 0
 	seenFns := map[string]bool{}
+	type mutSite struct {
+		fn   *ssa.Function
+		ins  ssa.Instruction
+		kind string
+		via  string // "" for the map operation itself, else the helper through which the excerpts change
+	}
+	var sites []mutSite
 	for _, fn := range w.ModFns {
 		if isInstance(fn) || fnPkgPath(fn) != modPath+"/cache" {
 			continue
-		}
-		name := funcName(fn)
-		root := fn
-		for root.Parent() != nil {
-			root = root.Parent()
 		}
 		for _, b := range fn.Blocks {
 			for _, ins := range b.Instrs {
@@ -292,36 +295,85 @@ func checkExcerptIndexPairing(c *Ctx) {
 						kind = "reset"
 					}
 				}
-				if kind == "" {
-					continue
+				if kind != "" {
+					sites = append(sites, mutSite{fn, ins, kind, ""})
 				}
-				c.Sites++
-				key := name + ":excerpts-" + kind
-				pos := w.InstrPos(ins)
-				if why, ok := exempt[funcName(root)]; ok {
-					c.Info("R11.1", key, pos, "exempt: "+why)
-					continue
-				}
-				nMut++
-				seenFns[funcName(root)] = true
-				c.seeFn(name)
-				var need func(ssa.Instruction) bool
-				what := ""
-				switch kind {
-				case "store":
-					need, what = isIndexWrite, "an index write (IndexOne / batch indexer)"
-				case "delete":
-					need, what = isIndexRemove, "Index.Remove"
-				case "reset":
-					need, what = isIndexClear, "Index.Clear"
-				}
-				// within one iteration: reach a normal exit or the loop back edge without the index op
-				bad, p, _ := pathSearch(fn, ins, nil, func(i ssa.Instruction) bool { return isNormalExit(i) }, need, false)
-				c.Check(!bad, "R11.1", key+":index", pos, "followed by "+what+" before any normal exit", "the excerpts are changed ("+kind+") and a normal exit is reachable without "+what+": listing and search disagree — "+blocksString(w, p))
-				bad2, p2, _ := pathSearch(fn, ins, nil, func(i ssa.Instruction) bool { return isNormalExit(i) }, isWrite, false)
-				c.Check(!bad2, "R11.1", key+":cache-file", pos, "followed by write() before any normal exit", "the excerpts are changed ("+kind+") and a normal exit is reachable without rewriting the cache file — "+blocksString(w, p2))
 			}
 		}
+	}
+	// callers (in package cache) of an unexported function of package cache
+	callersOf := func(h *ssa.Function) []mutSite {
+		var out []mutSite
+		ho := h
+		if ho.Origin() != nil {
+			ho = ho.Origin()
+		}
+		for _, g := range w.ModFns {
+			if isInstance(g) || fnPkgPath(g) != modPath+"/cache" || g == h {
+				continue
+			}
+			for _, cl := range Calls(g) {
+				callee := cl.Fn
+				if callee != nil && callee.Origin() != nil {
+					callee = callee.Origin()
+				}
+				if callee == ho {
+					out = append(out, mutSite{g, cl.Instr, "", ""})
+				}
+			}
+		}
+		return out
+	}
+	for round := 0; round < 3 && len(sites) > 0; round++ {
+		var next []mutSite
+		for _, s := range sites {
+			fn, ins, kind := s.fn, s.ins, s.kind
+			name := funcName(fn)
+			root := fn
+			for root.Parent() != nil {
+				root = root.Parent()
+			}
+			c.Sites++
+			key := name + ":excerpts-" + kind
+			if s.via != "" {
+				key += "-via-" + s.via
+			}
+			pos := w.InstrPos(ins)
+			if why, ok := exempt[funcName(root)]; ok {
+				c.Info("R11.1", key, pos, "exempt: "+why)
+				continue
+			}
+			var need func(ssa.Instruction) bool
+			what := ""
+			switch kind {
+			case "store":
+				need, what = isIndexWrite, "an index write (IndexOne / batch indexer)"
+			case "delete":
+				need, what = isIndexRemove, "Index.Remove"
+			case "reset":
+				need, what = isIndexClear, "Index.Clear"
+			}
+			// within one iteration: reach a normal exit or the loop back edge without the index op
+			bad, p, _ := pathSearch(fn, ins, nil, func(i ssa.Instruction) bool { return isNormalExit(i) }, need, false)
+			bad2, p2, _ := pathSearch(fn, ins, nil, func(i ssa.Instruction) bool { return isNormalExit(i) }, isWrite, false)
+			// a helper that only changes the excerpts (under the lock) and leaves the rest to its callers:
+			// the obligation moves to every call of it
+			if (bad || bad2) && round < 2 && root == fn && fn.Object() != nil && !fn.Object().Exported() {
+				if cs := callersOf(fn); len(cs) > 0 {
+					for _, cs1 := range cs {
+						next = append(next, mutSite{cs1.fn, cs1.ins, kind, fn.Name()})
+					}
+					c.Info("R11.1", key, pos, fmt.Sprintf("the index and cache-file obligations are left to the %d caller(s) of this helper", len(cs)))
+					continue
+				}
+			}
+			nMut++
+			seenFns[funcName(root)] = true
+			c.seeFn(name)
+			c.Check(!bad, "R11.1", key+":index", pos, "followed by "+what+" before any normal exit", "the excerpts are changed ("+kind+") and a normal exit is reachable without "+what+": listing and search disagree — "+blocksString(w, p))
+			c.Check(!bad2, "R11.1", key+":cache-file", pos, "followed by write() before any normal exit", "the excerpts are changed ("+kind+") and a normal exit is reachable without rewriting the cache file — "+blocksString(w, p2))
+		}
+		sites = next
 	}
 	for _, want := range []string{"cache.SubCache.Build", "cache.SubCache.MergeAll", "cache.SubCache.entityUpdated", "cache.SubCache.Remove", "cache.SubCache.RemoveAll"} {
 		if !seenFns[want] {
@@ -471,6 +523,73 @@ func checkEviction(c *Ctx) {
 				for _, r := range *lk.Referrers() {
 					if e, isE := r.(*ssa.Extract); isE && e.Index == 1 {
 						for _, u := range condUsers(e) {
+							ee := errEdge(u.If, defaultFail)
+							if (ee == 1 && !u.Neg) || (ee == 0 && u.Neg) {
+								ok = true
+							}
+						}
+					}
+				}
+			}
+		}
+		// or the look-up lives in a same-package helper whose boolean result says whether the entity is loaded
+		if !ok {
+			eub := bodyOf(eu)
+			for _, cl := range Calls(eub) {
+				h := cl.Fn
+				if h == nil {
+					continue
+				}
+				if h.Origin() != nil {
+					h = h.Origin()
+				}
+				if len(h.Blocks) == 0 || fnPkgPath(h) != modPath+"/cache" || cl.Value() == nil {
+					continue
+				}
+				// which result of h is "loaded"? the one that is true only on the found edge of a look-up in cached
+				for k := 0; k < h.Signature.Results().Len(); k++ {
+					if bt, isB := h.Signature.Results().At(k).Type().Underlying().(*types.Basic); !isB || bt.Kind() != types.Bool {
+						continue
+					}
+					faithful := true
+					sawTrue := false
+					for _, r := range Returns(h) {
+						rv := ReturnResult(r, k)
+						if ex, isEx := rv.(*ssa.Extract); isEx && ex.Index == 1 {
+							if lk, isLk := ex.Tuple.(*ssa.Lookup); isLk {
+								if _, fld, isF := loadOfField(lk.X); isF && fld == "cached" {
+									sawTrue = true
+									continue
+								}
+							}
+						}
+						kc, isK := rv.(*ssa.Const)
+						if !isK || kc.Value == nil {
+							faithful = false
+							continue
+						}
+						if kc.Value.String() == "true" {
+							onFound := false
+							for _, cc := range controlConds(r.Block(), nil) {
+								if ex, isEx := cc.If.Cond.(*ssa.Extract); isEx && ex.Index == 1 && cc.Edge == 0 {
+									if lk, isLk := ex.Tuple.(*ssa.Lookup); isLk {
+										if _, fld, isF := loadOfField(lk.X); isF && fld == "cached" {
+											onFound = true
+										}
+									}
+								}
+							}
+							if !onFound {
+								faithful = false
+							}
+							sawTrue = true
+						}
+					}
+					if !faithful || !sawTrue {
+						continue
+					}
+					for _, rv := range resultValues(cl.Value(), k) {
+						for _, u := range condUsers(rv) {
 							ee := errEdge(u.If, defaultFail)
 							if (ee == 1 && !u.Neg) || (ee == 0 && u.Neg) {
 								ok = true
